@@ -15,7 +15,7 @@ impl Zerv {
 
         // 2. Bump + Reset step (atomic operation)
         if let Some(increment) = bump_value {
-            self.vars.major = Some(self.vars.major.unwrap_or(0) + increment as u64);
+            self.vars.major = Some(super::checked_bump(self.vars.major.unwrap_or(0), increment)?);
             self.reset_lower_precedence_components(&Precedence::Major)?;
         }
 
@@ -34,7 +34,7 @@ impl Zerv {
 
         // 2. Bump + Reset step (atomic operation)
         if let Some(increment) = bump_value {
-            self.vars.minor = Some(self.vars.minor.unwrap_or(0) + increment as u64);
+            self.vars.minor = Some(super::checked_bump(self.vars.minor.unwrap_or(0), increment)?);
             self.reset_lower_precedence_components(&Precedence::Minor)?;
         }
 
@@ -53,7 +53,7 @@ impl Zerv {
 
         // 2. Bump + Reset step (atomic operation)
         if let Some(increment) = bump_value {
-            self.vars.patch = Some(self.vars.patch.unwrap_or(0) + increment as u64);
+            self.vars.patch = Some(super::checked_bump(self.vars.patch.unwrap_or(0), increment)?);
             self.reset_lower_precedence_components(&Precedence::Patch)?;
         }
 
